@@ -266,7 +266,7 @@ class Recorder:
     def snap(self, d):
         ppl = d.sim.people
         au = np.asarray(ppl.auids).astype(int)
-        n = int(au.max()) + 1 if len(au) else 0
+        n = int(ppl.uid.len_used)     # every uid ever created (inactive agents read as not susceptible / not infectious)
         return dict(au=au, n=n,
                     sus=self.scatter(d.susceptible, au, n, bool), inf=self.scatter(d.infectious, au, n, bool),
                     rs=self.scatter(d.rel_sus, au, n, np.float64), rt=self.scatter(d.rel_trans, au, n, np.float64))
@@ -347,7 +347,7 @@ class Recorder:
             rec = dict(pool=mp.name, ti=int(mp.ti), beta=bf, ppf=[], prog=[], diseases=[d.name for d in mp.diseases],
                        pre={d.name: R.snap(d) for d in mp.diseases})
             au = np.asarray(mp.sim.people.auids).astype(int)
-            n = int(au.max()) + 1 if len(au) else 0
+            n = int(mp.sim.people.uid.len_used)
             rec['contacts'] = R.scatter(mp.eff_contacts, au, n, np.float64)
             R.curpool = rec; R.pool_obj = mp
             try:
@@ -973,12 +973,24 @@ def monotone_case(cfg, k, variant):
     return fails, (sum(len(x[-1]) for x in cases.get(id(A), {}).values() if x), sum(len(x[-1]) for x in cases.get(id(B), {}).values() if x))
 
 
+def pool_churn_cfg(seed, variant):
+    """ a mixing pool whose groups are explicit uid lists (fixed at construction), a disease that does not clear its
+        flags on death (SIS has no step_die), and heavy background mortality: dead members must leave the groups """
+    src, dst = [('uids_mid', 'uids_lo'), ('all', 'uids_hi')][variant % 2]
+    return dict(family='pool', n_agents=90, rand_seed=1000 + int(seed) % 1000 + variant, dt=1.0, npts=9,
+                networks=[dict(type='pool', src=src, dst=dst, beta=0.8, timepar=False, contacts=3, n_agents=90)],
+                demographics=[dict(type='deaths', death_rate=250)],
+                diseases=[dict(type='sis', init_prev=0.5, beta=dict(kind='scalar', v=0.3, tp=False))], rel=None)
+
+
 def search(ctx):
     n = ctx.budget(8, 60)
     fams = ['plain', 'sexual', 'maternal', 'pool', 'mixed', 'churn']
     ev = dict(events=0, kernel_calls=0, pool_cases=0)
     for k in range(n):
         cfg = gen_cfg(ctx.rng, fams[k % len(fams)])
+        if k in (3, 4):
+            cfg = pool_churn_cfg(ctx.seed, k - 3)     # always exercised: fixed-membership pools under heavy mortality
         try:
             fails, R = oracle_run(cfg)
         except Exception as e:
